@@ -62,8 +62,37 @@ def lint_template(q, sibling_imports=()):
     return out
 
 
-def sibling_imports(qs):
-    """(file, fn) -> names imported through ::core by any template of that function"""
+def sibling_imports(qs, src_root=None):
+    """(file, fn) -> names imported through ::core, or bound, by any template of that function - and, for a helper function
+    whose templates are fragments handed back to its callers, by the templates of every function of a file that mentions the
+    helper's name (the fragment lands in one of those)"""
+    out = _sibling_imports(qs)
+    if src_root is None:
+        return out
+    import os, re
+    texts = {}
+    for dp, _, fns in os.walk(src_root):
+        for fn in fns:
+            if fn.endswith('.rs'):
+                rel = os.path.relpath(os.path.join(dp, fn), src_root)
+                try:
+                    texts[rel] = open(os.path.join(dp, fn), encoding='utf8').read()
+                except OSError:
+                    pass
+    by_file = {}
+    for (f, fn), names in out.items():
+        by_file.setdefault(f, set()).update(names)
+    helpers = {(q['file'], q['fn']) for q in qs if q['parsed'] is not None and q['parsed']['wrapper'] != 'file'}
+    for (f, fn) in helpers:
+        if fn in ('generate', 'parse', 'check', 'new'):
+            continue
+        pat = re.compile(r'\b%s\s*\(' % re.escape(fn))
+        for rel, txt in texts.items():
+            if pat.search(txt):
+                out.setdefault((f, fn), set()).update(by_file.get(rel, ()))
+    return out
+
+def _sibling_imports(qs):
     out = {}
     for q in qs:
         p = q['parsed']
